@@ -163,6 +163,7 @@ S_LPQ_POLL_RULES = [
 S_LPQ_WOAN_LOOP = """
 __CPROVER_assigns(vx_it, result, *added, g_src_foreign, g_src_v, g_dst_foreign, g_own_cross, g_self_np, g_self_hp, g_self_lp, g_moved, g_moved_foreign, g_cur_victim, g_have_victim)
 __CPROVER_loop_invariant(g_dst_foreign == 0)
+__CPROVER_loop_invariant(g_self_hp >= 1 || g_self_np >= 1 || g_self_lp >= 1 || g_own_cross >= 1)
 """
 S_SQ_RULES = [
     _Sub(r"using\s+\w+\s*=[^;]*;", "", None),
